@@ -433,6 +433,18 @@ def jobs(tier):
     for mode in (C.MODES4 if th else ["gregorian", "360day"]):
         for k in range(-span, span):
             J.append(("job_from_epoch", dict(mode=mode, nlo=k * yr, nhi=(k + 1) * yr - 1, utc=True)))
+    # windows of +-3 days around calendar boundaries many millennia either side of 1970 (the day count to the window is
+    # concrete, the position inside the window is symbolic)
+    FAR = [(0, 1, 1), (1, 1, 1), (-1, 3, 1), (1600, 3, 1), (1900, 3, 1), (2100, 3, 1), (4000, 3, 1), (10000, 1, 1),
+           (-4000, 3, 1), (-9999, 1, 1), (25000, 1, 1), (-20000, 3, 1)]
+    for mode in C.MODES4:
+        ep0 = R.daynum_cal(P, mode, 1970, 1, 1)
+        for y, m, d in (FAR if mode == "gregorian" or th else FAR[:2] + FAR[5:6] + FAR[9:11]):
+            base = (R.daynum_cal(P, mode, y, m, d) - ep0) * 86400
+            J.append(("job_from_epoch", dict(mode=mode, nlo=base - 3 * 86400, nhi=base + 3 * 86400, utc=True,
+                                             as_float=(y == 1900))))
+    b0 = (R.daynum_cal(P, "gregorian", 0, 1, 1) - R.daynum_cal(P, "gregorian", 1970, 1, 1)) * 86400
+    J.append(("job_from_epoch", dict(mode="gregorian", nlo=b0 - 2 * 86400, nhi=b0 + 2 * 86400, utc=False)))
     J.append(("job_from_epoch", dict(mode="gregorian", nlo=-yr, nhi=-1, utc=True, as_float=True)))
     J.append(("job_from_epoch", dict(mode="gregorian", nlo=0, nhi=yr, utc=True, as_float=True)))
     J.append(("job_from_epoch", dict(mode="gregorian", nlo=-40 * 86400, nhi=40 * 86400, utc=False)))
@@ -451,9 +463,9 @@ INFO = {
                    "get_timepoint_from_seconds_since_unix_epoch for symbolic n (int and float typed, UTC and stubbed local zone).",
     "bounds": {"quick": {"system zone": "std and dst offsets any whole minute within +-24 h, daylight 0/1, tm_isdst -1/0/1",
                          "seconds_since_unix_epoch": "every year -1 000 000..999 999, offsets -14:59..+14:59, whole seconds; gregorian: ordinal days 1-62 and 335-366, calendar months Jan-Mar and Dec, week dates in weeks 1, 27, 53; other modes: ordinal days 1-31 and 335-366", "to_local_time_zone": "ordinal dates, point offsets -99:59..+99:59",
-                         "from epoch": "n in +-2*366 days (gregorian, 360day; the real code walks one day per path)"},
+                         "from epoch": "n in +-2*366 days (gregorian, 360day; the real code walks one day per path); plus windows of +-3 days around 1 Jan / 1 Mar of the years 0, 1, -1, 1600, 1900, 2100, 4000, 10000, -4000, -9999, 25000, -20000 (gregorian; five of them in the other modes), one of them in the stubbed local zone"},
                "thorough": {"from epoch": "n in +-6*366 days, all 4 modes", "seconds_since_unix_epoch": "offsets -30:59..+30:59 (week dates +-14:59, weeks 1, 2, 26, 27, 52, 53); every ordinal/calendar date in all modes", "to_local_time_zone": "3 representations"}},
-    "outside": ["the from-epoch direction beyond the stated window ('many millennia')", "fractional n",
+    "outside": ["the from-epoch direction outside the stated windows", "fractional n",
 ],
     "assumptions": ["stub: time.timezone/altzone/daylight/localtime().tm_isdst return arbitrary values of their documented types within the stated ranges"],
 }
